@@ -21,6 +21,7 @@ from nix_manipulator.expressions.set import (
 )
 from nix_manipulator.expressions.trivia import (
     append_gap_between_offsets,
+    apply_trailing_trivia,
     collect_comment_trivia_between,
     format_trivia,
     gap_has_empty_line_from_offsets,
@@ -193,16 +194,10 @@ class LetExpression(TypedExpression):
         indented = indent + 2
 
         before_str = format_trivia(self.before, indent=indent)
-        after_str = format_trivia(self.after, indent=indent)
-        if self.after and isinstance(self.after[0], Comment) and self.after[0].inline:
-            if after_str and not after_str.startswith((" ", "\n")):
-                after_str = " " + after_str
-        if (
-            self.after
-            and self.after[-1] not in (linebreak, empty_line)
-            and after_str.endswith("\n")
-        ):
-            after_str = after_str[:-1]
+        def with_trailing(text: str) -> str:
+            """Append the trailing trivia on lines of their own (inline comment: same line)."""
+            return apply_trailing_trivia(text, self.after, indent=indent)
+
         let_line = ("" if inline else " " * indent) + "let"
         if self.after_let_comment is not None:
             let_line += f" {self.after_let_comment.rebuild(indent=0)}"
@@ -226,14 +221,8 @@ class LetExpression(TypedExpression):
         if not self.local_variables:
             body_str = self.value.rebuild(indent=indent, inline=False)
             body_str = ensure_inline_comment_space(body_str, self.value.after)
-            return (
-                f"{before_str}"
-                + let_line
-                + "\n"
-                + " " * indent
-                + "in\n"
-                + body_str
-                + f"{after_str}"
+            return with_trailing(
+                f"{before_str}" + let_line + "\n" + " " * indent + "in\n" + body_str
             )
 
         render_values = _select_render_values(self.local_variables, self.attrpath_order)
@@ -243,14 +232,13 @@ class LetExpression(TypedExpression):
         binding_suffix = "" if bindings_str.endswith("\n") else "\n"
         body_str = self.value.rebuild(indent=indent, inline=False)
         body_str = ensure_inline_comment_space(body_str, self.value.after)
-        return (
+        return with_trailing(
             f"{before_str}"
             + let_line
             + f"\n{bindings_str}{binding_suffix}"
             + " " * indent
             + "in\n"
             + body_str
-            + f"{after_str}"
         )
 
     def to_scoped_expression(self) -> NixExpression:
